@@ -126,26 +126,94 @@ def gen_program(rnd: random.Random) -> Dict[str, Any]:
             "rom_overlays": [[0xFFFFA, [0x00, 0x20, 0x00]]]}
 
 
+def gen_power_program(rnd: random.Random) -> Dict[str, Any]:
+    """Programs that use the low-power states and the interrupt registers: firmware writes to ISR / IMR (requests latched by
+    the program itself, masks opened and closed), HALT, OFF, IR, WAIT, a handler that acknowledges and returns - and host
+    events (ON key, matrix keys, register pokes) between the budgets.  The synchronous loop's treatment of a halted or
+    powered-off machine (waking, scrubbing of latched requests, idle cycles) is exactly what the scheduler-driven CPU must
+    reproduce."""
+    def fw():
+        r = rnd.random()
+        if r < 0.30:
+            return [0xCC, 0xFC, rnd.choice([0x01, 0x02, 0x04, 0x08, 0x09, 0x03, 0x0F, 0x00])]      # MV (ISR), n
+        if r < 0.55:
+            return [0xCC, 0xFB, rnd.choice([0x00, 0x80, 0x81, 0x83, 0x88, 0x8F, 0x0F, 0x8B])]      # MV (IMR), n
+        if r < 0.62:
+            return [0xCC, 0xF0, rnd.choice([0x00, 0xFF, 0x01])]                                    # MV (KOL), n
+        if r < 0.70:
+            return [0x09, rnd.randrange(0, 5), 0xEF]                                               # MV IL,n ; WAIT
+        if r < 0.76:
+            return [0xFE]                                                                          # IR
+        if r < 0.84:
+            return [0x08, rnd.randrange(256)]
+        if r < 0.90:
+            return [0x40, rnd.randrange(256)]
+        return [0x00]
+    prog: List[int] = []
+    for _ in range(rnd.randint(1, 5)):
+        prog += fw()
+    prog += [rnd.choice([0xDE, 0xDF, 0xDF])]                  # HALT / OFF
+    for _ in range(rnd.randint(1, 5)):
+        prog += fw()
+    if rnd.random() < 0.5:
+        prog += [rnd.choice([0xDE, 0xDF])]
+        prog += fw()
+    back = len(prog) + 2
+    prog += [0x13, back] if back < 0x80 else [0x00]
+    handler: List[int] = []
+    for _ in range(rnd.randint(0, 3)):
+        handler += rnd.choice([[0x00], [0xCC, 0xFC, 0x00], [0xCC, 0xFC, rnd.choice([0x0E, 0x07, 0x0B, 0x0D])], [0xCC, 0xFB, 0x8F], [0x08, 0x55]])
+    handler += [0x01]                                          # RETI
+    return {"loads": [[0x1000, prog], [0x2000, handler]], "regs": {"PC": 0x1000, "S": 0xBFF00, "U": 0xBFE00},
+            "timer": {"enabled": rnd.random() < 0.8, "pm": rnd.choice([0, 1, 2, 3, 7, 30]), "ps": rnd.choice([0, 2, 5, 11, 50])},
+            "imem": [[0xFB, rnd.choice([0x00, 0x83, 0x81, 0x8F, 0x88])], [0xFC, rnd.choice([0x00, 0x00, 0x01, 0x08, 0x04, 0x0A])]],
+            "rom_overlays": [[0xFFFFA, [0x00, 0x20, 0x00]]]}
+
+
+def _host_events(rnd: random.Random, nchunks: int) -> List[List[Any]]:
+    out: List[List[Any]] = []
+    for _ in range(nchunks):
+        evs: List[Any] = []
+        r = rnd.random()
+        if r < 0.25:
+            evs.append(["press_on"])
+        elif r < 0.35:
+            evs.append(["release_on"])
+        elif r < 0.50:
+            evs.append(["key", rnd.choice([0x00, 0x01, 0x0A, 0x21]), rnd.random() < 0.7])
+        elif r < 0.60:
+            evs.append(["imem", 0xFC, rnd.choice([0x01, 0x02, 0x08, 0x04])])
+        out.append(evs)
+    return out
+
+
 def cpu_equivalence(cr: CheckRun, n: int) -> None:
     rnd = random.Random(cr.seed + 18)
     vh = Vh()
     done = 0
     try:
         for k in range(n):
-            cfg = gen_program(rnd)
-            cfg["loads"].append([0x2000, [0x01]])  # handler at 0x2000: RETI
+            power = k % 2 == 1
+            if power:
+                cfg = gen_power_program(rnd)
+            else:
+                cfg = gen_program(rnd)
+                cfg["loads"].append([0x2000, [0x01]])  # handler at 0x2000: RETI
             total = rnd.randint(1, 60)
             a = rnd.randint(0, total)
-            for chunks in ([total], [a, total - a]):
+            b = rnd.randint(a, total)
+            for chunks in ([total], [a, total - a], [a, b - a, total - b]):
+                events = _host_events(rnd, len(chunks)) if power else []
                 for slice_ in (1, 2, 3, 7, 10000):
-                    r = vh.call("driver.cpu_equiv", cfg=cfg, chunks=chunks, slice=slice_, ranges=[[0xBFE00, 0x200]])
+                    r = vh.call("driver.cpu_equiv", cfg=cfg, chunks=chunks, slice=slice_, events=events, ranges=[[0xBFE00, 0x200]])
                     done += 1
                     if r["sync"] != r["async"] or r["sync_err"] != r["async_err"]:
                         diff = [k2 for k2 in r["sync"] if r["sync"][k2] != r["async"].get(k2)]
-                        cr.violation("CpuEquivalence", f"AsyncRuntimeRunner(slice={slice_}, chunks={chunks}) differs from CoreRuntime::step in {diff}",
-                                     {"cfg": cfg, "chunks": chunks, "slice": slice_, "diff_keys": diff,
+                        cr.violation("CpuEquivalence" + (":power" if power else ""),
+                                     f"AsyncRuntimeRunner(slice={slice_}, chunks={chunks}) differs from CoreRuntime::step in {diff}",
+                                     {"cfg": cfg, "chunks": chunks, "slice": slice_, "events": events, "diff_keys": diff,
                                       "sync": {k2: r["sync"][k2] for k2 in diff}, "async": {k2: r["async"][k2] for k2 in diff}})
-            if k == 0:
+            if k < 2:
                 cr.add_sample({"campaign": "cpu-equivalence", "cfg": cfg, "instructions": total})
     finally:
         vh.close()
@@ -180,7 +248,7 @@ def run(cr: CheckRun) -> None:
     campaign(cr, sitems, "simulate-4tasks")
     rnd = random_behaviours(cr.seed, 1500 if quick else 20000)
     campaign(cr, rnd, "random")
-    cpu_equivalence(cr, 40 if quick else 600)
+    cpu_equivalence(cr, 120 if quick else 1500)
     cr.cov["distinct_nontrivial"] = len({json.dumps(b, sort_keys=True) for b in items + sitems + rnd})
     cr.cov["rule"] = "distinct (task scripts, budget sequence) behaviours executed on the real AsyncDriver"
     cr.cov["trusted_base"] = ["vh harness (driver.rs, rt.rs)", "TLC", "lib/vlib.py"]
@@ -204,7 +272,7 @@ def replay(path: str) -> int:
             for b in bad:
                 print("REJECTED", b)
             return 1 if any(b["clause"] in PROPERTY_CLAUSES for b in bad) else 0
-        r = vh.call("driver.cpu_equiv", cfg=rec["cfg"], chunks=rec["chunks"], slice=rec["slice"], ranges=[[0xBFE00, 0x200]])
+        r = vh.call("driver.cpu_equiv", cfg=rec["cfg"], chunks=rec["chunks"], slice=rec["slice"], events=rec.get("events", []), ranges=[[0xBFE00, 0x200]])
         diff = [k for k in r["sync"] if r["sync"][k] != r["async"].get(k)]
         print("diff keys:", diff)
         return 1 if diff else 0
